@@ -570,17 +570,26 @@ def find_deadlock(module, R, W, passes, max_states=20000):
 # ----------------------------------------------------------------------------------------
 # line / byte-code level pre-emption of one real thread
 
+class Interrupt(BaseException):
+    """raised by the trace function inside the traced thread: an asynchronous exception (what KeyboardInterrupt does)"""
+
+
 class Preempter:
     """Runs `fn()` in a real thread under sys.settrace; the thread is stopped when the
     `stop_at`-th (0-based) trace event ('line' or 'opcode') is about to execute.  Events are counted
     inside a frame of one of `codes` whose `self` is `shared` (the traced function) and, with
     `deep`, in every frame below it whose code lives under the directory `deep` (the library:
     everything the traced function calls).  stop_at=None: only count the events.
-    `frame_locals` are the locals of the traced function's frame at the stop."""
+    `frame_locals` are the locals of the traced function's frame at the stop.
+    interrupt=True: instead of being parked the thread gets the exception Interrupt at that event.
+    No method of this class blocks for ever or raises because the traced code hangs: run_to_stop / run_to_end
+    return after their timeout with `hung` set."""
 
-    def __init__(self, fn, codes, shared, stop_at, opcode=False, deep=None):
+    def __init__(self, fn, codes, shared, stop_at, opcode=False, deep=None, interrupt=False):
         self.fn, self.codes, self.shared, self.stop_at, self.opcode = fn, set(codes), shared, stop_at, opcode
         self.deep = deep
+        self.interrupt = interrupt
+        self.hung = False
         self.count = 0
         self.at_stop = threading.Event()
         self.resume = threading.Event()
@@ -613,8 +622,11 @@ class Preempter:
                 self.frame_locals = dict(self.targets[-1].f_locals) if self.targets else {}
                 self.lineno = frame.f_lineno
                 self.where = frame.f_code.co_name
+                if self.interrupt:
+                    self.targets = []
+                    raise Interrupt()           # (a trace function that raises is unset by the interpreter)
                 self.at_stop.set()
-                if not self.resume.wait(TIMEOUT * 4):
+                if not self.resume.wait(TIMEOUT * 20):
                     raise SchedAbort()
                 sys.settrace(None)
                 self.targets = []
@@ -635,16 +647,20 @@ class Preempter:
             self.finished.set()
             self.at_stop.set()
 
-    def run_to_stop(self):
-        """True: stopped at the pre-emption point (thread parked); False: A finished before it"""
+    def run_to_stop(self, timeout=TIMEOUT * 4):
+        """True: stopped at the pre-emption point (thread parked); False: A finished before it, or (hung = True)
+        A neither reached the point nor finished within `timeout`"""
         self.thread.start()
-        if not self.at_stop.wait(TIMEOUT * 4):
-            raise MachineryError("traced thread did not reach the pre-emption point")
+        if not self.at_stop.wait(timeout):
+            self.hung = True
+            return False
         return self.stopped and not self.finished.is_set()
 
-    def run_to_end(self):
+    def run_to_end(self, timeout=TIMEOUT * 4):
+        """resume A; True if it finished within `timeout` (else hung = True; the daemon thread is abandoned)"""
         self.resume.set()
-        if not self.finished.wait(TIMEOUT * 4):
-            raise MachineryError("traced thread did not finish")
+        if not self.finished.wait(timeout):
+            self.hung = True
+            return False
         self.thread.join(TIMEOUT)
-        return self.result
+        return True
